@@ -4739,9 +4739,12 @@ agent_recv_message_unlocked (
 
           if (component->rfc4571_frame_size == 0 &&
               headroom >= sizeof (guint16)) {
-            component->rfc4571_frame_size = sizeof (guint16) + ntohs (
-                *((guint16 *) (component->rfc4571_buffer +
-                    component->rfc4571_frame_offset)));
+            const guint8 *hdr = component->rfc4571_buffer +
+                component->rfc4571_frame_offset;
+
+            /* The header may sit at an odd offset: read it bytewise. */
+            component->rfc4571_frame_size = sizeof (guint16) +
+                ((hdr[0] << 8) | hdr[1]);
           }
         }
 
@@ -4969,9 +4972,11 @@ agent_consume_next_rfc4571_chunk (NiceAgent *agent, NiceComponent *component,
 
     headroom = nice_component_compute_rfc4571_headroom (component);
     if (headroom >= sizeof (guint16)) {
-      component->rfc4571_frame_size = sizeof (guint16) + ntohs (
-          *((guint16 *) (component->rfc4571_buffer +
-              component->rfc4571_frame_offset)));
+      const guint8 *hdr = component->rfc4571_buffer +
+          component->rfc4571_frame_offset;
+
+      component->rfc4571_frame_size = sizeof (guint16) +
+          ((hdr[0] << 8) | hdr[1]);
       have_whole_next_frame = headroom >= component->rfc4571_frame_size;
     } else {
       have_whole_next_frame = FALSE;
